@@ -31,20 +31,20 @@ P={
 "C09":("exploration","model","stateful PBT of cursor programs over layered key sets against a sorted-vector cursor model",
   "Generated key layouts across write set / memtables / tables, generated bounds and cursor programs with reversals; after every call validity, key and value must match an index into the sorted live list.",
   "next/prev are only issued while the model cursor is on an entry (as the property states); seek targets lie inside the bounds."),
-"C10":("exploration","model","stateful PBT of timestamped histories against a version-list model; metamorphic over physical steps and the two index back-ends",
-  "Generated timestamped histories with barriers, retention and physical placements; get_at/history answers compared with the model and between back-ends.",
-  "Trusted: versioned model; ties and limit semantics judged only as far as documented."),
-"C11":("exploration","model","stateful PBT with value-size classes around the threshold against a byte-exact model, plus generated schedules with separate flusher and compactor actors",
+"C10":("exploration","model","stateful PBT of timestamped histories against a version-list model (unlimited and finite retention under a controlled clock, both index back-ends, back-dated writes), plus crash-point enumeration with the same model as judge",
+  "(1) Generated timestamped histories with barriers and physical placements; get_at / history answers (tombstones, timestamp ranges, limits, both directions) compared with the version model; streams: index off / on, ties, back-dated writes, finite retention (a version inside the window or the newest write of its key is required, older ones may be missing, erased ones never appear). (2) Crash axis: the same kind of workload under the file-operation recorder; on every process-crash / power-loss image (every file-operation boundary, also inside a flush where the version index is updated in place before the manifest switches) the latest values must equal a prefix state and every history and get_at, right after recovery, must equal the version model after such a prefix. Open findings F10, F25, F44, F48 are classified and the search continues behind them.",
+  "Trusted: versioned model, recorder and image builder (as C02); ties and limit semantics judged only as far as documented; images between the first page write of an index update and its fsync are judged but reported as F44."),
+"C11":("exploration","model","stateful PBT with value-size classes around the threshold against a byte-exact model, generated schedules with separate flusher and compactor actors, and crash-point enumeration over value-log clean-up with the version index",
   "(1) Histories with value sizes around the separation threshold, tiny value-log files, overwrite patterns that make files obsolete, long-lived readers, reopen; byte equality of every read and existence of every reachable value-log file after every physical step. (2) Schedules: a flush (with its value-log clean-up) may complete while a compaction is parked between hiding its inputs and switching the manifest; every read must succeed and return a value some transaction wrote to that key, also after a reopen (nothing cached).",
-  "Crash axis of value-log files is covered by C02/C03/C07 images (vlog on in half of them)."),
+  "A third stream is the crash axis of the value-log clean-up with the version index (every value separated, tiny files, finite retention, barriers, many compactions; judged like C10's crash stream: a listed version whose value cannot be read is an error). Crash images of value-log files without the index are C02/C03/C07's (vlog on in half of their workloads, images with a headerless value-log file are continued)."),
 "C12":("fault_enumeration","format","exhaustive damage-offset enumeration over generated WAL segments (PBT) plus libFuzzer",
   "Generated record-length sequences and session splits; every truncation / byte / bit damage position; reader and repair must yield an exact prefix; appends after recovery must be read back.",
   "Small segments exhaustively, larger ones sampled near boundaries."),
 "C13":("exploration","format","PBT of sorted tables against a sorted-vector reference",
   "Generated entry sets and table options; iteration, seek, get and range predicates compared with a reference.",
   "Through the guarded facade over crate-private table types."),
-"C14":("exploration","model","stateful PBT: history -> checkpoint -> history -> restore -> history -> reopen against a model that rewinds its commit log",
-  "Restore truncates the model to the checkpoint; everything after must behave as usual (new commits visible and durable, no data from the discarded timeline); checkpoint copies opened standalone must scan to the checkpointed state. Streams: plain, vlog on, cache on.",
+"C14":("exploration","model","stateful PBT: history -> checkpoint -> history -> restore -> history -> reopen against a model that keeps one copy of itself per checkpoint",
+  "Restore sets the model to the checkpoint's copy (also a checkpoint NEWER than the present state after an earlier restore); everything after must behave as usual (new commits visible and durable, no data from the discarded timeline); checkpoint copies opened standalone must scan to the checkpointed state. Streams: plain, vlog on, cache on.",
   "Trusted: model; no commit in flight at checkpoint time (single-threaded interpreter)."),
 "C15":("fault_enumeration","crash","fault-position enumeration (n-th write / fsync / rename / open on a file class fails) over generated workloads, then crash-image enumeration after the fault; plus schedules with refused batches",
   "A fault-free pass places the fault on an operation that exists; the faulted run (LD_PRELOAD shim) checks after every failed commit that none of its writes is visible; then process-crash and power-loss images are enumerated at the file-operation boundaries after the fault and must open to an acknowledged-commit prefix that contains no transaction whose commit() had returned an error. Non-I/O family: schedules in which batches larger than the memtable must be refused, leave nothing visible (probes) and not poison later commits.",
